@@ -10,8 +10,10 @@ import xarray as xr
 from hypothesis import strategies as st
 
 BASE_TIME = np.datetime64("2018-03-01T00:00:00", "ns")
+# (also pairs in which one name is the beginning of the other one)
 NAMES = [["primary", "secondary"], ["P", "S"], ["MHS", "AVHRR_2"], ["b", "a"],
-         ["secondary", "primary"]]
+         ["MHS", "MHS2"], ["secondary", "primary"], ["MHS2", "MHS"],
+         ["A", "AB"], ["primary2", "primary"]]
 DTYPES = ["f8", "f8", "f8", "f4", "i8", "i4"]
 NAN = float("nan")
 
@@ -212,13 +214,14 @@ def built_cases(draw):
             ["default", "default", "primary", "primary", "secondary",
              "secondary", "secondary", "secondary", "unknown"])),
         "custom": draw(st.sampled_from(
-            [[], [], ["max"], ["median"], ["slots"],
-             ["max", "median", "slots"]])),
+            [[], [], ["max"], ["median"], ["first"], ["slots"],
+             ["first", "last"], ["max", "median", "slots"]])),
     }
 
 
-CUSTOM_ITEMS = ["max", "median", "slots", "mean=median", "mean=max",
-                "std=max", "std=median", "number=max", "number=slots"]
+CUSTOM_ITEMS = ["max", "median", "first", "slots", "last", "mean=median",
+                "mean=max", "std=max", "std=first", "std=median",
+                "number=max", "number=slots"]
 
 
 @st.composite
@@ -255,6 +258,26 @@ def history_cases(draw):
         "source": "built", "names": draw(st.sampled_from(NAMES)),
         "schema": schema, "parts": parts, "steps": steps,
         "mandatory_only": draw(st.sampled_from([False] * 6 + [True])),
+    }
+
+
+@st.composite
+def file_cases(draw):
+    """one small compact data set that is stored in a file and read through
+    Collocations in the given read modes (None = not given / given as None)"""
+    schema = draw(_schema())
+    part = draw(_part(schema, draw(st.sampled_from(["tiny", "small"]))))
+    return {
+        "source": "built", "names": draw(st.sampled_from(NAMES)),
+        "schema": schema, "parts": [part],
+        "modes": draw(st.sampled_from(
+            [[None, "collapse", "expand", "compact"], [None],
+             ["collapse", None], ["expand", None, "compact"]])),
+        "explicit_none": draw(st.booleans()),
+        "reference": draw(st.sampled_from(
+            ["default", "secondary", "secondary", "primary", "unknown"])),
+        "custom": draw(st.sampled_from(
+            [[], ["max"], [], ["first", "median"], ["mean=median"]])),
     }
 
 
@@ -303,7 +326,8 @@ def small_pattern_cases():
                            "schema": schema, "parts": [part],
                            "reference": "secondary" if (i + k) % 2
                            else "default",
-                           "custom": ["max"] if i % 3 == 0 else []}
+                           "custom": [["max"], [], ["first", "last"], []]
+                           [(i + k) % 4]}
 
 
 # --------------------------------------------------------------------------
@@ -456,7 +480,8 @@ def collocator_cases(draw):
         "reference": draw(st.sampled_from(
             ["default", "primary", "secondary", "secondary", "secondary",
              "unknown"])),
-        "custom": draw(st.sampled_from([[], [], ["max"], ["median"]])),
+        "custom": draw(st.sampled_from(
+            [[], [], ["max"], ["first"], ["median"], ["first", "last"]])),
     }
     return case
 
